@@ -36,6 +36,13 @@ Qed.
 
 Ltac sx := cbn [run bind no_fault exec is_call is_storage andb exec_db w_db w_ln w_mem w_active w_calls set_ln].
 
+Lemma internal_mq_some q d m : internal_mq q d = Some m ->
+  find (fun m0 => mq_hash m0 =? lq_hash q) (d_mq d) = Some m /\ mq_hash m = lq_req q.
+Proof.
+  unfold internal_mq, same_invoice. destruct (find _ _) as [m0|]; [|discriminate].
+  destruct (mq_hash m0 =? lq_req q) eqn:E; [|discriminate]. intros H. injection H as <-. split; [reflexivity|apply Z.eqb_eq; exact E].
+Qed.
+
 Ltac dbx := cbn [set_spent set_pending set_sigs set_mq set_lq set_ks d_spent d_pending d_sigs d_mq d_lq d_ks].
 
 (* GetMeltQuoteState on a quote: what the poll does, by the backend's answer *)
@@ -181,7 +188,7 @@ Theorem melt_tokens_spec cfg mem_ks id ins w :
                             melt_effect id ins w w' 1 0 /\ d_mq (w_db w') = d_mq (w_db w) /\ w_ln w' = w_ln w)
   | Ok q' =>
       exists q, find_lq id (d_lq (w_db w)) = Some q /\ melt_validated mem_ks q ins w /\
-      match find (fun m => mq_hash m =? lq_hash q) (d_mq (w_db w)) with
+      match internal_mq q (w_db w) with
       | None =>
           (* paid over Lightning: exactly one pay call, with the fee limit bounded by what the user paid for *)
           q' = with_state q (fst (melt_decision (next_pay w (lq_hash q)) (next_look w (lq_hash q))))
@@ -245,8 +252,11 @@ Proof.
   { unfold pend1. rewrite <- (Hys0 (lq_id q)). apply filter_remove_added. rewrite Hys0. exact Hfresh_p. }
   assert (Hsave : nodupb (ys_of (map (to_row 0) ins) ++ ys_of (d_spent d)) = true).
   { rewrite Hys0. apply nodupb_app_fresh; assumption. }
-  destruct (find (fun m0 => mq_hash m0 =? lq_hash q) (d_mq d)) as [mq0|] eqn:Emq.
+  sx; dbx.
+  change (same_invoice (ROk (find (fun m0 => mq_hash m0 =? lq_hash q) (d_mq d))) (lq_req q)) with (internal_mq q d).
+  cbn [w_db]. destruct (internal_mq q d) as [mq0|] eqn:Emq'.
   - (* internal settlement *)
+    destruct (internal_mq_some _ _ _ Emq') as [Emq Ereq].
     sx; dbx. destruct (l_inverr l) eqn:Eie.
     { sx; dbx. eexists _, _. split; [reflexivity|]. split; [split; reflexivity|]. right. split; [reflexivity|].
       exists q. split; [reflexivity|]. split; [exact Hval|].
@@ -265,7 +275,7 @@ Proof.
     rewrite Hmm. sx; dbx. fold pend1. rewrite Hrem.
     sx; dbx. rewrite Hsave. sx; dbx.
     eexists _, _. split; [reflexivity|]. split; [split; reflexivity|].
-    exists q. split; [reflexivity|]. split; [exact Hval|]. rewrite Emq. exists (i_hash inv).
+    exists q. split; [reflexivity|]. split; [exact Hval|]. try rewrite Emq'. exists (i_hash inv).
     cbn [w_db w_ln]. dbx. rewrite upd_lq_twice.
     split; [reflexivity|]. split; [|split; reflexivity].
     split; [reflexivity|]. split; [reflexivity|]. split; [reflexivity|]. left. repeat split.
@@ -280,7 +290,7 @@ Proof.
       sx; dbx. rewrite Hsave. sx; dbx. cbn [lq_id].
       rewrite map_upd_lq, Hmem. sx; dbx.
       eexists _, _. split; [reflexivity|]. split; [split; reflexivity|].
-      exists q. split; [reflexivity|]. split; [exact Hval|]. rewrite Emq.
+      exists q. split; [reflexivity|]. split; [exact Hval|]. try rewrite Emq'.
       unfold next_pay, next_look, melt_decision. cbn [w_ln]. rewrite Epay. cbn [fst]. rewrite P0. cbn [fst snd].
       cbn [w_db w_ln l_calls]. dbx. rewrite upd_lq_twice.
       split; [reflexivity|]. split; [|split; reflexivity].
@@ -288,7 +298,7 @@ Proof.
     + destruct (a_kind pa =? 2) eqn:P2.
       * (* in flight *)
         sx; dbx. eexists _, _. split; [reflexivity|]. split; [split; reflexivity|].
-        exists q. split; [reflexivity|]. split; [exact Hval|]. rewrite Emq.
+        exists q. split; [reflexivity|]. split; [exact Hval|]. try rewrite Emq'.
         unfold next_pay, next_look, melt_decision. cbn [w_ln]. rewrite Epay. cbn [fst]. rewrite P0, P2. cbn [fst snd].
         cbn [w_db w_ln l_calls]. dbx.
         split; [reflexivity|]. split; [|split; reflexivity].
@@ -300,14 +310,14 @@ Proof.
         { sx; dbx. cbn [lq_id]. rewrite map_upd_lq, Hmem. sx; dbx.
           fold pend1. rewrite Hrem. sx; dbx.
           eexists _, _. split; [reflexivity|]. split; [split; reflexivity|].
-          exists q. split; [reflexivity|]. split; [exact Hval|]. rewrite Emq.
+          exists q. split; [reflexivity|]. split; [exact Hval|]. try rewrite Emq'.
           unfold next_pay, next_look, melt_decision. cbn [w_ln]. rewrite Epay, Elook. cbn [fst]. rewrite P0, P2, L4. cbn [fst snd].
           cbn [w_db w_ln l_calls]. dbx. rewrite upd_lq_twice.
           split; [reflexivity|]. split; [|split; reflexivity].
           split; [reflexivity|]. split; [reflexivity|]. split; [reflexivity|]. right. right. repeat split. }
         destruct (a_kind la =? 3) eqn:L3.
         { sx; dbx. eexists _, _. split; [reflexivity|]. split; [split; reflexivity|].
-          exists q. split; [reflexivity|]. split; [exact Hval|]. rewrite Emq.
+          exists q. split; [reflexivity|]. split; [exact Hval|]. try rewrite Emq'.
           unfold next_pay, next_look, melt_decision. cbn [w_ln]. rewrite Epay, Elook. cbn [fst]. rewrite P0, P2, L4, L3. cbn [fst snd].
           cbn [w_db w_ln l_calls]. dbx.
           split; [reflexivity|]. split; [|split; reflexivity].
@@ -316,7 +326,7 @@ Proof.
         { sx; dbx. cbn [lq_id]. rewrite map_upd_lq, Hmem. sx; dbx.
           fold pend1. rewrite Hrem. sx; dbx.
           eexists _, _. split; [reflexivity|]. split; [split; reflexivity|].
-          exists q. split; [reflexivity|]. split; [exact Hval|]. rewrite Emq.
+          exists q. split; [reflexivity|]. split; [exact Hval|]. try rewrite Emq'.
           unfold next_pay, next_look, melt_decision. cbn [w_ln]. rewrite Epay, Elook. cbn [fst]. rewrite P0, P2, L4, L3, L1. cbn [fst snd].
           cbn [w_db w_ln l_calls]. dbx. rewrite upd_lq_twice.
           split; [reflexivity|]. split; [|split; reflexivity].
@@ -326,13 +336,13 @@ Proof.
           sx; dbx. rewrite Hsave. sx; dbx. cbn [lq_id].
           rewrite map_upd_lq, Hmem. sx; dbx.
           eexists _, _. split; [reflexivity|]. split; [split; reflexivity|].
-          exists q. split; [reflexivity|]. split; [exact Hval|]. rewrite Emq.
+          exists q. split; [reflexivity|]. split; [exact Hval|]. try rewrite Emq'.
           unfold next_pay, next_look, melt_decision. cbn [w_ln]. rewrite Epay, Elook. cbn [fst]. rewrite P0, P2, L4, L3, L1, L0. cbn [fst snd].
           cbn [w_db w_ln l_calls]. dbx. rewrite upd_lq_twice.
           split; [reflexivity|]. split; [|split; reflexivity].
           split; [reflexivity|]. split; [reflexivity|]. split; [reflexivity|]. left. repeat split. }
         sx; dbx. eexists _, _. split; [reflexivity|]. split; [split; reflexivity|].
-        exists q. split; [reflexivity|]. split; [exact Hval|]. rewrite Emq.
+        exists q. split; [reflexivity|]. split; [exact Hval|]. try rewrite Emq'.
         unfold next_pay, next_look, melt_decision. cbn [w_ln]. rewrite Epay, Elook. cbn [fst]. rewrite P0, P2, L4, L3, L1, L0. cbn [fst snd].
         cbn [w_db w_ln l_calls]. dbx.
         split; [reflexivity|]. split; [|split; reflexivity].
